@@ -179,9 +179,11 @@ func (m *Morass) Push(e LessInterface) error {
 	}
 
 	if len(m.chunk) == m.chunkSize {
+		verifStep("push-handoff", nil, 0)
 		m.writable <- m.chunk
 		go m.write()
 		m.chunk = <-m.pool
+		verifStep("push-got-buffer", nil, 0)
 		if err := m.err(); err != nil {
 			return err
 		}
@@ -199,18 +201,22 @@ func (m *Morass) Push(e LessInterface) error {
 
 func (m *Morass) write() {
 	writing := <-m.writable
+	verifStep("write-received", nil, len(writing))
 	defer func() {
+		verifStep("write-return-buffer", nil, 0)
 		m.pool <- writing[:0]
 	}()
 
 	sort.Sort(writing)
 
+	verifStep("write-before-tempfile", nil, 0)
 	tf, err := ioutil.TempFile(m.dir, m.prefix)
 	if err != nil {
 		m.setErr(err)
 		return
 	}
 
+	verifStep("write-file-created", tf, 0)
 	enc := gob.NewEncoder(tf)
 	dec := gob.NewDecoder(tf)
 	f := &file{head: nil, file: tf, encoder: enc, decoder: dec}
@@ -218,14 +224,19 @@ func (m *Morass) write() {
 	m.filesLock.Lock()
 	m.files = append(m.files, f)
 	m.filesLock.Unlock()
+	verifStep("write-file-registered", tf, 0)
+	verifIdx := 0
 
 	for _, e := range writing {
+		verifStep("write-before-encode", tf, verifIdx)
+		verifIdx++
 		if err := enc.Encode(&e); err != nil {
 			m.setErr(err)
 			return
 		}
 	}
 
+	verifStep("write-before-sync", tf, 0)
 	m.setErr(tf.Sync())
 }
 
@@ -250,6 +261,7 @@ func (m *Morass) Len() int64 { return m.len }
 // Finalise is called to indicate that the last element has been pushed on to the Morass
 // and write out final data.
 func (m *Morass) Finalise() error {
+	verifStep("finalise-entry", nil, 0)
 	if err := m.err(); err != nil {
 		return err
 	}
@@ -274,11 +286,14 @@ func (m *Morass) Finalise() error {
 	}
 
 	if !m.fast {
+		verifStep("finalise-reads-files", nil, len(m.files))
 		for _, f := range m.files {
+			verifStep("finalise-before-seek", f.file, 0)
 			_, err := f.file.Seek(0, 0)
 			if err != nil {
 				return err
 			}
+			verifStep("finalise-before-decode", f.file, 0)
 			err = f.decoder.Decode(&f.head)
 			if err != nil && err != io.EOF {
 				return err
@@ -360,6 +375,7 @@ func (m *Morass) Pull(e LessInterface) error {
 			low := heap.Pop(&m.files).(*file)
 			e = low.head
 			m.pos++
+			verifStep("pull-before-decode", low.file, 0)
 			switch err = low.decoder.Decode(&low.head); err {
 			case nil:
 				heap.Push(&m.files, low)
